@@ -5,6 +5,8 @@ import Driver.Sio
 import Driver.Queue
 import Driver.Srv
 import Driver.Rooms
+import Driver.Backoff
+import Driver.Heartbeat
 /-
   Line-protocol driver: one request per line on stdin, one canonical answer per line on stdout.
   The same request lines are executed by the Go harness against the real implementation.
@@ -22,6 +24,9 @@ def step (line : String) : String :=
   | "q" :: rest => qLine rest
   | "srv" :: rest => srvLine rest
   | "rm" :: rest => rmLine rest
+  | "bo" :: rest => boLine rest
+  | "hb" :: rest => hbLine rest
+  | "rc" :: rest => rcLine toks.tail!
   | _ => "bad-op"
 
 partial def loop (h : IO.FS.Stream) (out : IO.FS.Stream) : IO Unit := do
